@@ -6741,6 +6741,9 @@ void SoPlexBase<R>::resetSettings(const bool quiet, const bool init)
    for(int i = 0; i < SoPlexBase<R>::REALPARAM_COUNT; i++)
       setRealParam((RealParam)i, _currentSettings->realParam.defaultValue[i], init);
 
+   // the random seed is saved and loaded with the settings (uint:random_seed), so reset it as well
+   setRandomSeed(SOPLEX_DEFAULT_RANDOM_SEED);
+
 #ifdef SOPLEX_WITH_RATIONALPARAM
 
    for(int i = 0; i < SoPlexBase<R>::RATIONALPARAM_COUNT; i++)
